@@ -1,8 +1,11 @@
 (* Proofs/FmtExprLex.v -- no token gluing for expressions of arbitrary nesting: for every printable
    expression the inline layout passes the [ok_seq] check, hence lexes to exactly the tokens written. *)
-From TV Require Import Base.I32 Model.Fmt Model.FmtLex Model.FmtParse Spec.Fmt
+From TV Require Import Base.I32 Gen.FmtTables Model.Fmt Model.FmtLex Model.FmtParse Spec.Fmt
   Proofs.FmtLits Proofs.FmtLexP Proofs.FmtLitRT.
 Open Scope Z_scope.
+
+(* the proofs below hold whichever way the generated flag is set *)
+Opaque gen_unop_guard.
 
 (* ---------------------------------------------------------------------------------------- *)
 (* ok_seq with a continuation character *)
@@ -103,6 +106,19 @@ Lemma safe_prefix op c : mem_str op prefix_unops = true -> follows_ok op (String
 Proof.
   intros H Hf. apply mem_str_In in H. unfold prefix_unops in H.
   destruct H as [<-|[<-|[<-|[]]]]; destruct c as [[] [] [] [] [] [] [] []]; cbn in Hf; try discriminate; reflexivity.
+Qed.
+
+Lemma safe_prefix_nofuse op c : mem_str op prefix_unops = true -> fuses op (Some c) = false -> startc c = true ->
+  safe (TFix op) (Some c) = true.
+Proof.
+  intros H Hf Hs. apply mem_str_In in H. unfold prefix_unops in H.
+  destruct H as [<-|[<-|[<-|[]]]]; destruct c as [[] [] [] [] [] [] [] []]; cbn in Hf, Hs; try discriminate; reflexivity.
+Qed.
+
+Lemma safe_prefix_paren op : mem_str op prefix_unops = true -> safe (TFix op) (Some "("%char) = true.
+Proof.
+  intros H. apply mem_str_In in H. unfold prefix_unops in H.
+  destruct H as [<-|[<-|[<-|[]]]]; reflexivity.
 Qed.
 
 (* words *)
@@ -531,14 +547,31 @@ Lemma good_un op x : good x -> good (FUn op x).
 Proof.
   intros Hx Hp sup. cbn [pr_expr pp] in *.
   destruct (mem_str op prefix_unops) eqn:Eop.
-  - apply andb_true_iff in Hp as [Hp1 Hp2]. destruct (Hx Hp1 false) as [Hx1 Hx2].
-    rewrite fl_paren_eq. apply okk_paren.
-    + intros k Hk. cbn [fl flat_map flat fx]. change (OT (TFix op) :: flat_map flat (pp fd false x)) with ([OT (TFix op)] ++ fl (pp fd false x)).
-      rewrite oks_app. fold (fl (pp fd false x)). rewrite (Hx1 k Hk), andb_true_r. cbn [oks ok1]. rewrite andb_true_r.
-      destruct Hx2 as (c & Hc & _). unfold nx at 2. rewrite Hc. unfold nx. cbn [concat_text nextc].
-      apply safe_prefix; [exact Eop|].
-      unfold print_expr in Hp2. rewrite flat_seq in Hp2. rewrite (follows_ok_first _ _ _ Hc) in Hp2. exact Hp2.
-    + destruct (startc_prefix op Eop) as (c & s & -> & Hc). eapply fst_ok_tok; [reflexivity|exact Hc].
+  - apply andb_true_iff in Hp as [Hp1 Hp2]. destruct (Hx Hp1 false) as [Hx1 Hx2]. destruct (Hx Hp1 true) as [Hy1 Hy2].
+    rewrite fl_paren_eq.
+    destruct Hx2 as (c & Hc & Hst).
+    assert (Hfc : first_char_docs (pp fd false x) = Some c) by exact Hc.
+    rewrite Hfc.
+    destruct (startc_prefix op Eop) as (c0 & s0 & Eq0 & Hc0).
+    destruct (gen_unop_guard && fuses op (Some c)) eqn:G.
+    + (* the operand is parenthesized *)
+      apply okk_paren.
+      * intros k Hk. rewrite !fl_app. cbn [fl flat_map flat app fx]. fold (fl (pp fd true x)). cbn [oks ok1].
+        rewrite (nx_tok (TFix "(") _ k "("%char EmptyString eq_refl), (safe_prefix_paren op Eop).
+        rewrite oks_app. rewrite (Hy1 (nx [OT (TFix ")")] k)) by reflexivity.
+        cbn [oks ok1]. rewrite safe_close.
+        destruct (nx_fst (fl (pp fd true x) ++ [OT (TFix ")")]) k (fst_ok_app _ _ Hy2)) as (c' & Hc' & _).
+        rewrite Hc'. reflexivity.
+      * subst op. eapply fst_ok_tok; [reflexivity|exact Hc0].
+    + apply okk_paren.
+      * intros k Hk. cbn [fl flat_map flat fx]. change (OT (TFix op) :: flat_map flat (pp fd false x)) with ([OT (TFix op)] ++ fl (pp fd false x)).
+        rewrite oks_app. fold (fl (pp fd false x)). rewrite (Hx1 k Hk), andb_true_r. cbn [oks ok1]. rewrite andb_true_r.
+        unfold nx at 2. rewrite Hc. unfold nx. cbn [concat_text nextc].
+        destruct gen_unop_guard eqn:Eg.
+        -- cbn [andb] in G. apply safe_prefix_nofuse; assumption.
+        -- cbn [orb] in Hp2. apply safe_prefix; [exact Eop|].
+           unfold print_expr in Hp2. rewrite flat_seq in Hp2. rewrite (follows_ok_first _ _ _ Hc) in Hp2. exact Hp2.
+      * subst op. eapply fst_ok_tok; [reflexivity|exact Hc0].
   - apply andb_true_iff in Hp as [Hp1 Hp2]. destruct (Hx Hp2 true) as [Hx1 Hx2].
     destruct (fn_tok_good op Hp1) as (t & c & s & Ht & Htx & Hc & Hs).
     rewrite !fl_app. cbn [fl flat_map flat app fx]. rewrite Ht. cbn [flat app].
